@@ -64,7 +64,7 @@ def adj_sx(a):
     if a is None:
         return "none"
     (k, v), = a.items()
-    return [k, expr_sx(v)]
+    return ["mul" if k == "num" else k, expr_sx(v)]
 
 
 def req_sx(r):
